@@ -894,15 +894,17 @@ fn alphabet(mode: Mode, rf: &RefConn, thorough: bool) -> Vec<Ev> {
     match mode {
         Mode::Content => {
             for n in [1u16, 2] {
-                let coll = match rf.chans.get(&n) {
-                    Some((_, c)) => c.clone(),
+                let (coll, has_b) = match rf.chans.get(&n) {
+                    Some((ch, c)) => (c.clone(), ch.consumers.contains_key(&1)),
                     None => continue,
                 };
                 match coll {
                     Coll::None => {
                         v.push(Ev::Deliver(n, 0));
-                        if n == 1 {
+                        if n == 1 && has_b {
                             v.push(Ev::Deliver(n, 1));
+                            // the server cancels b: a (same channel) and a on channel 2 go on receiving
+                            v.push(Ev::CancelSrv(n, 1, true));
                         }
                         v.push(Ev::GetOk(n));
                         v.push(Ev::Return(n));
@@ -1495,7 +1497,7 @@ pub fn huge_child(size: &str) {
 }
 
 pub fn run_content(args: &Args) {
-    run_mode(args, Mode::Content, "content", "C03", (9, 12), "BFS over valid server histories on channels 1 and 2 (consumers a,b on 1 and a on 2 - the same tag on two channels on purpose -, return listeners, gets): Deliver/GetOk/Return, Header(size 0..3, with/without properties), Body(1..remaining) in every per-channel-valid continuation and every cross-channel interleaving; after every frame everything every addressee received (full message content) is compared with a reference reassembler; state = real fingerprint x reference state");
+    run_mode(args, Mode::Content, "content", "C03", (9, 12), "BFS over valid server histories on channels 1 and 2 (consumers a,b on 1 and a on 2 - the same tag on two channels on purpose -, return listeners, gets): server Basic.Cancel of b on channel 1 (the other consumers go on receiving), Deliver/GetOk/Return, Header(size 0..3, with/without properties), Body(1..remaining) in every per-channel-valid continuation and every cross-channel interleaving; after every frame everything every addressee received (full message content) is compared with a reference reassembler; state = real fingerprint x reference state");
 }
 pub fn run_violations(args: &Args) {
     run_mode(args, Mode::Violations, "violations", "C07", (5, 6), "BFS over frame sequences from a 33-symbol (thorough 45) alphabet covering every arm of the dispatch on channel 0, the open channel 1 and the unopened channel 2 (content without method, second header, body overrun, new content method mid-content, frames for an unopened channel, content on channel 0, unknown / duplicate consumer tag, client-only methods, unimplemented classes, channel-0 methods, heartbeat on channel 1, protocol header, unsolicited replies) from every reachable collector state; per step: no panic, the error / client exception (Connection.Close with the matching hard-error code, sealed, later frames ignored) the statement names for that violation class, nothing delivered by a violating frame; plus six unallocatable body sizes in child processes");
